@@ -528,6 +528,9 @@ def shrink(case, sig):
     return cur
 
 
+ADDRESS = __import__("re").compile(r" at 0x[0-9a-fA-F]+>")
+
+
 def search(rng, tier, broken, corr):
     info = {"rule": "oracle = the same source run as __main__ in a fresh unmodified interpreter with the same inputs on "
                     "stdin: printed text equal apart from the prompt echo (one consistent echo form), same student "
@@ -548,6 +551,10 @@ def search(rng, tier, broken, corr):
             continue
         if "harness_error" in r:
             info.setdefault("harness_errors", []).append(r["harness_error"][:200])
+            continue
+        if ADDRESS.search(sc.plain_text(r["events"])):
+            # a default object repr got printed: the text contains a memory address and differs between any two runs
+            info["skipped"]["prints-an-address"] = info["skipped"].get("prints-an-address", 0) + 1
             continue
         info["evaluations"] += 1
         try:
